@@ -680,6 +680,26 @@ mod real {
             handles.push(std::thread::spawn(move || {
                 let mut rng = Rng::new(seed ^ t as u64);
                 let mut out = Vec::new();
+                if t == 0 {
+                    // frame-size boundaries in both tiers: the largest messages the two-octet length
+                    // prefix can announce (65533..65535), alone and followed by a pipelined query,
+                    // written whole and in 16384-/1021-octet segments
+                    for p in providers.iter() {
+                        for size in [65533usize, 65534, 65535] {
+                            for (seg, follow) in [(usize::MAX, true), (16384, true), (1021, false)] {
+                                let mut m: Vec<u8> = (0..size).map(|_| rng.byte()).collect();
+                                m[2] &= 0x7f;
+                                let mut stream = frame(&m);
+                                if follow {
+                                    stream.extend_from_slice(&frame(&query(rng.next() as u16, "gen.test.", 1, 0)));
+                                }
+                                let segments: Vec<Vec<u8>> = stream.chunks(seg.min(stream.len())).map(|c| c.to_vec()).collect();
+                                let conv = Conv { delays_ms: segments.iter().map(|_| 0).collect(), segments, wait_mode: false };
+                                out.push(run_conv(p, &conv));
+                            }
+                        }
+                    }
+                }
                 for i in 0..per_thread {
                     let p = &providers[(i + t) % providers.len()];
                     let conv = random_conv(&mut rng, thorough);
